@@ -10,30 +10,32 @@ import (
 
 // Violation classes of the tree workload.
 const (
-	clsTwice           = "C19/callback-more-than-once"
-	clsEarly           = "C19/callback-before-stage-finished"
-	clsLostNotLast     = "C19/error-lost/failed-stage-not-last"
-	clsLostLast        = "C19/error-lost/last-stage-failed"
-	clsLostRecover     = "C19/error-lost/panic-recover-path"
-	clsLostOther       = "C19/error-lost/other"
-	clsLostNotReported = "C19/error-lost/failure-never-reached-state-machine"
-	clsSpurious        = "C19/spurious-error"
-	clsUnrelated       = "C19/error-unrelated-to-failure"
-	clsHookTwice       = "C19/stage-complete-hook-more-than-once"
-	clsHookMissing     = "C19/stage-complete-hook-missing"
-	clsHangSyncPanic   = "C19/no-completion/sync-child-panic-under-async-parent"
-	clsHangPlanPanic   = "C19/no-completion/plan-panic-under-async-parent"
-	clsHangLostTask    = "C19/no-completion/task-rejected-context-done"
-	clsHangRejected    = "C19/no-completion/task-rejected-context-not-done"
-	clsHangAbandoned   = "C19/no-completion/pool-consumed-task-without-calling-handlers"
-	clsHangAllDone     = "C19/no-completion/all-stages-completed"
-	clsHangOther       = "C19/no-completion/other"
-	clsMainPanic       = "C19/pipeline-execute-panicked"
-	clsHandlerTwice    = "C19/stage-handler-more-than-once"
-	clsStatsState      = "C19/stats-state-disagrees-with-outcome"
-	clsErrHandleNil    = "C19/err-handler-called-with-nil"
-	clsNotStarted      = "C19/planned-stage-never-started"
-	clsTaskLostLater   = "C19/stage-task-abandoned-by-pool"
+	clsTwice             = "C19/callback-more-than-once"
+	clsEarly             = "C19/callback-before-stage-finished"
+	clsLostNotLast       = "C19/error-lost/failed-stage-not-last"
+	clsLostLast          = "C19/error-lost/last-stage-failed"
+	clsLostRecover       = "C19/error-lost/panic-recover-path"
+	clsLostOther         = "C19/error-lost/other"
+	clsLostCompletePanic = "C19/error-lost/panic-in-stage-complete"
+	clsLostNotReported   = "C19/error-lost/failure-never-reached-state-machine"
+	clsSpurious          = "C19/spurious-error"
+	clsUnrelated         = "C19/error-unrelated-to-failure"
+	clsHookTwice         = "C19/stage-complete-hook-more-than-once"
+	clsHookMissing       = "C19/stage-complete-hook-missing"
+	clsHangSyncPanic     = "C19/no-completion/sync-child-panic-under-async-parent"
+	clsHangPlanPanic     = "C19/no-completion/plan-panic-under-async-parent"
+	clsHangLostTask      = "C19/no-completion/task-rejected-context-done"
+	clsHangRejected      = "C19/no-completion/task-rejected-context-not-done"
+	clsHangAbandoned     = "C19/no-completion/pool-consumed-task-without-calling-handlers"
+	clsHangAllDone       = "C19/no-completion/all-stages-completed"
+	clsHangOther         = "C19/no-completion/other"
+	clsHangCompletePanic = "C19/no-completion/panic-in-stage-complete-deadlocks-state-machine"
+	clsMainPanic         = "C19/pipeline-execute-panicked"
+	clsHandlerTwice      = "C19/stage-handler-more-than-once"
+	clsStatsState        = "C19/stats-state-disagrees-with-outcome"
+	clsErrHandleNil      = "C19/err-handler-called-with-nil"
+	clsNotStarted        = "C19/planned-stage-never-started"
+	clsTaskLostLater     = "C19/stage-task-abandoned-by-pool"
 )
 
 type viol struct {
@@ -43,28 +45,29 @@ type viol struct {
 
 // stageFacts is what the trace says about one stage.
 type stageFacts struct {
-	id          int
-	registered  int // seq of plan event (-1: never)
-	execEnter   int
-	async       bool
-	execUnwound bool
-	opStarts    int
-	opEnds      int // op-end + op-panic
-	lastOpEnd   int
-	failSeq     int    // seq of the first failing event of this stage (-1: none)
-	failKind    string // "error" | "panic"
-	failTokens  []string
-	panicSeq    int
-	planPanic   bool
-	nextPanic   bool
-	hooks       []int
-	hEnters     []event
-	hExits      int
-	hUnwinds    int
-	lost        bool
-	rejected    bool
-	abandoned   bool
-	planned     int // number of stages NextStages() returned
+	id            int
+	registered    int // seq of plan event (-1: never)
+	execEnter     int
+	async         bool
+	execUnwound   bool
+	opStarts      int
+	opEnds        int // op-end + op-panic
+	lastOpEnd     int
+	failSeq       int    // seq of the first failing event of this stage (-1: none)
+	failKind      string // "error" | "panic"
+	failTokens    []string
+	panicSeq      int
+	planPanic     bool
+	completePanic bool
+	nextPanic     bool
+	hooks         []int
+	hEnters       []event
+	hExits        int
+	hUnwinds      int
+	lost          bool
+	rejected      bool
+	abandoned     bool
+	planned       int // number of stages NextStages() returned
 }
 
 // judge is the trace specification of C19 for one executed tree.
@@ -159,6 +162,13 @@ func judge(out *caseOutcome) (vs []viol, facts map[string]int) {
 			}
 		case evHook:
 			f.hooks = append(f.hooks, e.Seq)
+		case evHookPanic:
+			// a panic in the stage's Complete() callback is a failure (a panic) of that stage
+			f.completePanic = true
+			f.fail(e.Seq, "panic", fmt.Sprintf("c19-fail-s%d-complete", e.Stage))
+			if firstPanic < 0 {
+				firstPanic = e.Seq
+			}
 		case evNextReturn:
 			fmt.Sscan(e.Info, &f.planned)
 		case evHEnter:
@@ -235,6 +245,12 @@ func judge(out *caseOutcome) (vs []viol, facts map[string]int) {
 		if f.failKind == "panic" && f.async {
 			facts["pooled_stage_panicked"] = 1
 		}
+		if f.completePanic {
+			facts["stage_complete_callback_panicked"] = 1
+			if nFails == 1 {
+				facts["complete_panic_is_only_failure"] = 1
+			}
+		}
 	}
 	if cancelSeq >= 0 {
 		facts["runs_with_context_cancelled"] = 1
@@ -248,6 +264,12 @@ func judge(out *caseOutcome) (vs []viol, facts map[string]int) {
 	facts["stages_failed"] = nFails
 	facts["stages_panicked"] = nPanics
 
+	if out.Deadlock != "" {
+		add(clsHangCompletePanic, "callback never invoked: a panic inside Stage.Complete() escaped from pipelineStateMachine.completeStage with its mutex held; "+
+			"a runner of this pipeline now waits for that mutex below its own completeStage frame (stack in the witness)")
+		facts["no_callback"] = 1
+		return vs, facts
+	}
 	if out.Watchdog != "" {
 		return vs, facts
 	}
@@ -381,7 +403,16 @@ func judge(out *caseOutcome) (vs []viol, facts map[string]int) {
 		}
 		cls := clsLostOther
 		why := ""
+		onlyCompletePanics := true
+		for _, f := range failedBefore {
+			if !f.completePanic || len(f.failTokens) > 1 {
+				onlyCompletePanics = false
+			}
+		}
 		switch {
+		case onlyCompletePanics:
+			cls = clsLostCompletePanic
+			why = "the only failures are panics inside Stage.Complete(): the state machine recovered them but did not treat them as the stage's failure"
 		case cb.Stage < 0:
 			cls = clsLostRecover
 			why = "the callback came from outside any stage handler (pipeline.Execute's recover path)"
